@@ -218,6 +218,13 @@ class Check:
         """lake build the property's theorem module, audit axioms, check the required theorems exist"""
         self.required = list(required)
         ok, log = lake_build([module])
+        if not ok and getattr(self, "on_build_failure", None) is not None:
+            errs = lean_errors(log)
+            names = sorted({theorem_at(f, l) or f for (f, l, _) in errs}) or ["<build>"]
+            # second route of the tie (t1check.use_reference): the regenerated model no longer carries the proofs — go back to the
+            # committed reference model, whose theorems do check, and tie THAT to the code by correspondence
+            if self.on_build_failure("lake build %s fails on the regenerated model (%s)" % (module, ", ".join(names)[:300])):
+                ok, log = lake_build([module])
         if not ok:
             errs = lean_errors(log)
             names = sorted({theorem_at(f, l) or f for (f, l, _) in errs}) or ["<build>"]
